@@ -1,4 +1,5 @@
 //! C19 — converting through the DOM commutes with converting through text; equality laws.
+use serde::{Deserialize, Serialize};
 use std::borrow::Cow;
 use std::collections::{BTreeMap, HashMap};
 
@@ -257,6 +258,113 @@ fn typed_table() -> Vec<(&'static str, fn(&mut Ctx, &[u8]))> {
         rt!("TailEnum", TailEnum),
         rt!("Vec<(String,i128)>", Vec<(String, i128)>),
     ]
+}
+
+// ---- (2b) the data model's `is_human_readable` flag: JSON is a human-readable format on both routes
+
+/// serialises as what the serializer says about itself; deserialises to what the deserializer says
+#[derive(Debug, PartialEq, Clone, Copy, PartialOrd, Eq, Ord)]
+struct Hr(bool);
+impl Serialize for Hr {
+    fn serialize<S: serde::Serializer>(&self, s: S) -> Result<S::Ok, S::Error> {
+        let hr = s.is_human_readable();
+        s.serialize_bool(hr)
+    }
+}
+impl<'de> Deserialize<'de> for Hr {
+    fn deserialize<D: serde::Deserializer<'de>>(d: D) -> Result<Self, D::Error> {
+        let hr = d.is_human_readable();
+        let _ = bool::deserialize(d)?;
+        Ok(Hr(hr))
+    }
+}
+/// the same in key position (as a string)
+#[derive(Debug, PartialEq, Clone, Copy, PartialOrd, Eq, Ord)]
+struct HrKey(bool);
+impl Serialize for HrKey {
+    fn serialize<S: serde::Serializer>(&self, s: S) -> Result<S::Ok, S::Error> {
+        let hr = s.is_human_readable();
+        s.serialize_str(if hr { "readable" } else { "compact" })
+    }
+}
+impl<'de> Deserialize<'de> for HrKey {
+    fn deserialize<D: serde::Deserializer<'de>>(d: D) -> Result<Self, D::Error> {
+        let hr = d.is_human_readable();
+        let _ = String::deserialize(d)?;
+        Ok(HrKey(hr))
+    }
+}
+#[derive(Debug, PartialEq, Serialize, Deserialize)]
+enum HrEnum {
+    N(Hr),
+    T(Hr, u8),
+    S { a: Hr },
+}
+#[derive(Debug, PartialEq, Serialize, Deserialize)]
+struct HrAll {
+    plain: Hr,
+    opt: Option<Hr>,
+    seq: Vec<Hr>,
+    tup: (Hr, u8),
+    map: BTreeMap<HrKey, Hr>,
+    en: Vec<HrEnum>,
+    nested: BTreeMap<String, Vec<Option<Hr>>>,
+    addrs: Vec<std::net::IpAddr>,
+    sock: std::net::SocketAddr,
+    v4: std::net::Ipv4Addr,
+    v6: std::net::Ipv6Addr,
+}
+
+fn check_readable(ctx: &mut Ctx, seed: u64) {
+    let mut r = Rng::new(seed);
+    let v4 = std::net::Ipv4Addr::new(r.next() as u8, r.next() as u8, r.next() as u8, r.next() as u8);
+    let v6 = std::net::Ipv6Addr::from((r.next() as u128) << 64 | r.next() as u128);
+    let x = HrAll {
+        plain: Hr(true),
+        opt: Some(Hr(true)),
+        seq: vec![Hr(true); 1 + r.below(3) as usize],
+        tup: (Hr(true), r.next() as u8),
+        map: [(HrKey(true), Hr(true))].into_iter().collect(),
+        en: vec![HrEnum::N(Hr(true)), HrEnum::T(Hr(true), 1), HrEnum::S { a: Hr(true) }],
+        nested: [("k".to_string(), vec![Some(Hr(true)), None])].into_iter().collect(),
+        addrs: vec![std::net::IpAddr::V4(v4), std::net::IpAddr::V6(v6)],
+        sock: std::net::SocketAddr::new(std::net::IpAddr::V4(v4), r.next() as u16),
+        v4,
+        v6,
+    };
+    ctx.ops(4);
+    let text = match sonic_rs::to_string(&x) {
+        Ok(t) => t,
+        Err(e) => return ctx.fail("readable-text-route-failed", e.to_string()),
+    };
+    let dom = match sonic_rs::to_value(&x) {
+        Ok(d) => d,
+        Err(e) => return ctx.fail("readable-dom-route-failed", e.to_string()),
+    };
+    let parsed: Value = match sonic_rs::from_str(&text) {
+        Ok(v) => v,
+        Err(e) => return ctx.fail("readable-text-unreadable", e.to_string()),
+    };
+    if parsed != dom {
+        ctx.fail("readable-routes-differ", format!("to_value = {:?} but the text route wrote {:?}", crate::core::truncate(&sonic_rs::to_string(&dom).unwrap_or_default(), 300), crate::core::truncate(&text, 300)));
+        return;
+    }
+    let a = sonic_rs::from_str::<HrAll>(&text).map_err(|e| e.to_string());
+    let b = sonic_rs::from_value::<HrAll>(&parsed).map_err(|e| e.to_string());
+    let c = sonic_rs::from_value::<HrAll>(&dom).map_err(|e| e.to_string());
+    if a.as_ref().ok() != Some(&x) {
+        ctx.fail("readable-text-roundtrip", format!("from_str(to_string(x)) = {:?}", a.as_ref().map(|_| "a different value").map_err(|e| e.clone())));
+    }
+    if a != b || a != c {
+        ctx.fail("readable-from_value-differs", format!("from_str: {:?}; from_value(parsed): {:?}; from_value(to_value): {:?}", a.as_ref().map(|v| format!("{:?}", v.plain)), b.as_ref().map(|v| format!("{:?}", v.plain)), c.as_ref().map(|v| format!("{:?}", v.plain))));
+    }
+    // std's dual-representation types on their own, against serde_json's reading of the text
+    let want: serde_json::Value = serde_json::to_value(&x.addrs).unwrap();
+    let got = sonic_rs::to_value(&x.addrs).map(|v| sonic_rs::to_string(&v).unwrap_or_default()).unwrap_or_default();
+    if got != want.to_string() {
+        ctx.fail("readable-routes-differ", format!("to_value(Vec<IpAddr>) = {} , serde_json writes {}", got, want));
+    }
+    ctx.class("typed:human-readable-probe");
 }
 
 // ---- (3) equality laws on DOM values
@@ -789,6 +897,9 @@ impl Check for C19 {
         for _ in 0..n {
             emit(Case::with("built", vec![], &[r.next() as i64]));
         }
+        for _ in 0..g.count(160, 16_000) {
+            emit(Case::with("readable", vec![], &[r.next() as i64]));
+        }
         let n = g.count(4_000, 300_000);
         for _ in 0..n {
             emit(Case::with("laws-wide", vec![], &[r.next() as i64]));
@@ -890,6 +1001,11 @@ impl Check for C19 {
                 }
                 ctx.sample("laws-wide");
             }
+            "readable" => {
+                ctx.nontrivial();
+                check_readable(ctx, c.p(0) as u64);
+                ctx.sample("readable");
+            }
             "built" => {
                 ctx.nontrivial();
                 check_built(ctx, c.p(0) as u64);
@@ -916,8 +1032,8 @@ impl Check for C19 {
     }
     fn required_classes(&self, b: &str, _t: Tier) -> Vec<&'static str> {
         if b != "native-rel" {
-            return vec!["dyn:both-routes-ok", "typed:instance", "laws:pair"];
+            return vec!["dyn:both-routes-ok", "typed:instance", "typed:human-readable-probe", "laws:pair"];
         }
-        vec!["dyn:both-routes-ok", "table:non-finite", "table:wide-128", "table:non-string-key", "typed:instance", "laws:pair", "laws:equal-pair", "laws:duplicate-key-probe", "laws:reflexive-with-duplicates", "laws:wide-objects", "built:integer", "built:float", "built:string", "built:array", "built:object", "type:Payloads", "type:Wrappers", "type:Adjacent"]
+        vec!["dyn:both-routes-ok", "table:non-finite", "table:wide-128", "table:non-string-key", "typed:instance", "typed:human-readable-probe", "laws:pair", "laws:equal-pair", "laws:duplicate-key-probe", "laws:reflexive-with-duplicates", "laws:wide-objects", "built:integer", "built:float", "built:string", "built:array", "built:object", "type:Payloads", "type:Wrappers", "type:Adjacent"]
     }
 }
